@@ -74,7 +74,7 @@ pub fn model_path(c: &Case) -> PathSpec {
 const MARGIN: f64 = 1.0 + 0.70711;
 
 pub fn render(c: &Case) -> Vec<u32> {
-    let mut dt = DrawTarget::new(c.w, c.h);
+    let mut dt = blank_target(c.w, c.h);
     let white = Source::Solid(SolidSource { r: 255, g: 255, b: 255, a: 255 });
     // (C10's harmless preludes, e.g. an unrelated clip path pushed and popped: their path state must not reach
     // the path under test, which may well begin without a move_to)
